@@ -251,4 +251,140 @@ def noModBody : Body → Bool
   | .derived _ parent _ _ items => noModItems items && noModBody parent
 end
 
+/-! ### what the round trip relies on -/
+
+/-- the optional items of a field list: (condition flag id, field id, condition value) -/
+def optItems : Items → List (String × String × Nat)
+  | .nil => []
+  | .cons (.optional id _ cid cval) r => (cid, id, cval) :: optItems r
+  | .cons _ r => optItems r
+
+def payloadMode : Items → Option PayloadMode
+  | .nil => none
+  | .cons (.payload m) _ => some m
+  | .cons _ r => payloadMode r
+
+/-- a bit-field as the round trip needs it (on top of `bfOk`): the flag lists every optional field
+    it governs with its condition value; no optional field is governed by a plain scalar; the
+    payload's size field and the payload item carry the same modifier; count fields are narrower
+    than `usize` -/
+def bfRtOk (all : Items) : BitField → Bool
+  | .flag id opts =>
+    opts.all (fun o => decide (o.2 ≤ 1)) &&
+    (optItems all).all (fun (cid, oid, cval) => cid != id || opts.contains (oid, cval))
+  | .scalar id _ => (optItems all).all (fun (cid, _, _) => cid != id)
+  | .enumTy id _ _ => (optItems all).all (fun (cid, _, _) => cid != id)
+  | .fixed w c => decide (c < 2 ^ w)
+  | .size t _ m =>
+    t != "_body_" && (t != "_payload_" || payloadMode all == some (.sized m)) &&
+    (t == "_payload_" || (firstArray all t).isSome)
+  | .count t w => decide (w < 64) && (firstArray all t).isSome
+  | .elemSize t _ => (firstArray all t).isSome
+  | .reserved _ => true
+
+/-! ### the fields a chunk contributes to the decoded value -/
+
+def canonChunk (v : Value) : List BitField → List (String × Value)
+  | [] => []
+  | .scalar id _ :: r => (id, (v.get? id).getD .null) :: canonChunk v r
+  | .enumTy id _ _ :: r => (id, (v.get? id).getD .null) :: canonChunk v r
+  | _ :: r => canonChunk v r
+
+/-- the payload octets of a value -/
+def payloadBytes (v : Value) : Bytes := ((v.get? "payload").bind valBytes).getD []
+
+mutual
+/-- the value the decoder builds for a value the encoder accepts: fields in declaration order,
+    nested struct values normalised the same way, the payload as a list of octets -/
+def canonTy : Ty → Value → Value
+  | .struct _ b, x => canonBody b x
+  | _, x => x
+def canonItem : Item → Value → List (String × Value)
+  | .chunk fs, v => canonChunk v fs
+  | .typedef id ty _, v => [(id, canonTy ty ((v.get? id).getD .null))]
+  | .optional id ty _ _, v => [(id, if isPresent v id then canonTy ty ((v.get? id).getD .null) else .null)]
+  | .payload _, _ => []
+  | .array id elem _ _ _, v => [(id, .arr ((((v.get? id).bind Value.asList?).getD []).map (canonTy elem)))]
+def canonItems : Items → Value → List (String × Value)
+  | .nil, _ => []
+  | .cons i r, v => canonItem i v ++ canonItems r v
+def canonBody : Body → Value → Value
+  | .root _ items, v =>
+    .obj (canonItems items v ++ (if items.hasPayload then [("payload", Value.ofBytes (payloadBytes v))] else []))
+  | .derived .., v => v
+end
+
+/-- octets every encoding contains at least (chunks and padded arrays) -/
+def minEnc : Items → Nat
+  | .nil => 0
+  | .cons (.chunk fs) r => chunkBits fs / 8 + minEnc r
+  | .cons (.array _ _ _ _ (some p)) r => p + minEnc r
+  | .cons _ r => minEnc r
+
+/-- items that take "all the rest" of their span -/
+def greedyItem : Item → Bool
+  | .payload (.sized _) => false
+  | .payload _ => true
+  | .array _ _ _ .unknown none => true
+  | _ => false
+
+def greedyItems : Items → Bool
+  | .nil => false
+  | .cons i r => greedyItem i || greedyItems r
+
+/-- what follows a greedy item: nothing, or (payload before static fields) exactly `k` static octets -/
+def tailOk : Item → Items → Bool
+  | .payload .last, r => (match r with | .nil => true | _ => false)
+  | .payload (.beforeStatic k), r => staticItems r == some k && !greedyItems r
+  | .payload .undelimited, _ => false
+  | .array _ _ _ .unknown none, r => (match r with | .nil => true | _ => false)
+  | .array _ _ _ .unknown (some _), _ => false     -- an unsized array in a padded span absorbs the padding
+  | _, _ => true
+
+def payloadModes : Items → List PayloadMode
+  | .nil => []
+  | .cons (.payload m) r => m :: payloadModes r
+  | .cons _ r => payloadModes r
+
+def arrayItems : Items → List (String × Ty × ElemWidth)
+  | .nil => []
+  | .cons (.array id elem ew _ _) r => (id, elem, ew) :: arrayItems r
+  | .cons _ r => arrayItems r
+
+mutual
+/-- the round-trippable class: whole-octet integers, structs without parent that are delimited
+    (not greedy) when used as field types, element widths that agree with the element type, no
+    element-size arrays, no array size modifiers, flags that list the fields they govern -/
+def rtWfTy : Ty → Bool
+  | .scalar w => w % 8 == 0
+  | .enumTy _ e => e.width % 8 == 0
+  | .custom _ w => w % 8 == 0
+  | .struct _ (.root _ items) =>
+    rtWfItems items items && decWfItems [] items && decide ((arrayIds items).Nodup) && !greedyItems items &&
+    decide ((payloadModes items).length ≤ 1)
+  | .struct _ (.derived ..) => false
+def rtWfItem (all : Items) : Item → Bool
+  | .chunk fs => chunkBits fs % 8 == 0 && fs.all (fun f => bfRtOk all f && bfNoArrayMod f)
+  | .typedef _ ty _ => rtWfTy ty && ty.selfGuarded
+  | .optional _ ty _ _ => rtWfTy ty
+  | .payload _ => true
+  | .array id elem ew _ _ =>
+    rtWfTy elem && lenWfTy elem && id != "_payload_" &&
+    (match ew with
+     | .static w => decide (0 < w) && staticTy elem == some w
+     | .dynamic => false
+     | .unknown => (match elem with
+        | .struct _ (.root _ items) => decide (0 < minEnc items) && lenWfItems items
+        | _ => false))
+def rtWfItems (all : Items) : Items → Bool
+  | .nil => true
+  | .cons i r => rtWfItem all i && tailOk i r && rtWfItems all r
+end
+
+def rtWfBody : Body → Bool
+  | .root _ items =>
+    rtWfItems items items && decWfItems [] items && decide ((arrayIds items).Nodup) &&
+    decide ((payloadModes items).length ≤ 1)
+  | .derived .. => false
+
 end Pdlv
